@@ -15,28 +15,28 @@ CHECKS = {
    note='alphabet bound; removal of the root itself excluded (as the property says)', ref='3/C03'),
  'C05': dict(engine='seq', cat='model_checking', tech='explicit-state BFS to fixpoint, cross-observer consistency invariant on every reached state',
    text='In every reachable state every path of the universe (plus everything listings reveal) is observed with exists/metadata/is_file/is_dir/read_dir/open+read and walk_dir from every directory; the observers must tell one consistent story (model-free). Includes the states reached with a write handle kept open across other calls.',
-   note='alphabet bound incl. prefix-sharing, dotted and multi-byte names', ref='3/C05'),
+   note='alphabet bound incl. prefix-sharing, dotted, dots-only, multi-byte and backslash-carrying names', ref='3/C05'),
  'C07': dict(engine='seq(pair)', cat='model_checking', tech='product explicit-state BFS of altroot and translated twin + exhaustive hostile-join sweep with recorded underlying calls',
    text='Alt(Recorder(X),P) and a twin X\' are explored in lock-step (op(q) vs op(P/q)); outcomes, sub-tree views and raw snapshots must agree; every path argument reaching X lies below P and the snapshot outside P (and outside the PhysicalFS root, at OS level) is unchanged; every join argument of <=3-4 hostile segments x 18 call kinds is swept. Three pairs also run the timestamp setters and compare which entries carry the written instant. Write handles obtained through the altroot are run against handles on P/q of a twin, every script of 3 steps (write, write_all, write!, seek, flush), comparing step results and the bytes the underlying filesystem shows after every step.',
    note='symlinks out of scope; alphabet bound; P of depth 0..3', ref='3/C07'),
  'C08': dict(engine='seq', cat='model_checking', tech='explicit-state BFS over overlays with recording wrappers on every layer',
    text='All calls incl. explicit observer calls in every reachable state of overlays with populated lower layers: the recorder log of lower layers never shows a mutating method, observers issue no mutating call to any layer, deep snapshots (type, bytes, created, modified) of lower layers are unchanged.',
-   note='alphabet bound; 2-4 layers; `accessed` of lower files excluded (the lower filesystem updates it on open)', ref='3/C08'),
+   note='alphabet bound; 2-4 layers, also physical and memory layers that are directories of ONE shared filesystem object; `accessed` of lower files excluded (the lower filesystem updates it on open)', ref='3/C08'),
  'C09': dict(engine='seq', cat='model_checking', tech='explicit-state BFS to fixpoint from every type-consistent initial layering, reference model initialised with the union',
    text='For every type-consistent assignment of initial layer contents over a small universe the overlay is explored to fixpoint with the TYPED alphabet and compared with the abstract-tree model initialised with the union of the layers.',
-   note='alphabet bound; 1-4 layers; type-inconsistent layerings are outside the stated domain', ref='3/C09'),
+   note='alphabet bound; 1-4 layers, chains of up to 4 levels in lower layers; type-inconsistent layerings are outside the stated domain', ref='3/C09'),
  'C10': dict(engine='seq', cat='model_checking', tech='explicit-state BFS to fixpoint (remove / re-create cycles) + marker invisibility probes',
    text='The C09 exploration run to fixpoint covers arbitrarily many remove / re-create cycles with type changes; model equality after every step shows removed entries stay absent and re-created ones start fresh; in every state the namespace is probed for .whiteout / *_wo entries.',
    note='alphabet bound; reserved names never generated, only probed', ref='3/C10'),
  'C12': dict(engine='seq', cat='model_checking', tech='explicit-state BFS; every Err of every call and observer checked against the allowed path set and kind classes',
-   text='Every error produced by any call or observer in the C01/C09 explorations must carry the call\'s path, its destination or an ancestor of them (a descendant only for calls that walk below their path: walk_dir, remove_dir_all, copy_dir, move_dir) in the caller\'s namespace (never the placeholder, never an underlying path) and the kinds the property fixes.',
+   text='Every error produced by any call or observer in the C01/C09 explorations must carry the call\'s path, its destination or an ancestor of them (a descendant only for calls that walk below their path: walk_dir, remove_dir_all, copy_dir, move_dir) in the caller\'s namespace (never the placeholder, never an underlying path) and the kinds the property fixes; read_to_string of files with invalid UTF-8 (in the middle, truncated at the end) on every stack; the invalid-path classification of every join string up to the bound.',
    note='altroot prefixes and scratch paths are disjoint from universe names, so a leaked underlying path is recognisable', ref='3/C12'),
 }
 
 
 CHECKS.update({
  'C04': dict(engine='handle+seq', cat='model_checking', tech='exhaustive write/seek/flush session scripts against Cursor<Vec<u8>> + explicit-state BFS of session sequences + boundary lengths x buffer sizes',
-   text='(a) every script of d write/seek/flush steps on create and append handles of every backend (overlay copy-up included), a fresh reader right after the open, after every flush and after drop, against std::io::Cursor; (b) BFS to fixpoint of all create/append/copy/move/remove session sequences over two paths against the byte model; (c) boundary lengths (0..65537) x read buffer sizes and read strategies (read_to_end, read_exact, BufReader) through write, copy_file, move_file, append and overwrite; after a copy, later sessions on the original must not reach the copy and vice versa.',
+   text='(a) every script of d write/seek/flush steps on create and append handles of every backend (overlay copy-up included), a fresh reader right after the open, after every flush and after drop, against std::io::Cursor; (b) BFS to fixpoint of all create/append/copy/move/remove session sequences over two paths against the byte model; (c) boundary lengths (0..65537, and sessions on files of 1 MiB + 5 and 3 MiB with the published bytes compared right after every open) x read buffer sizes and read strategies (read_to_end, read_exact, BufReader) through write, copy_file, move_file, append and overwrite; after a copy, later sessions on the original must not reach the copy and vice versa.',
    note='script depth d (quick 4 / 3 on physical, thorough 5); fixed non-UTF-8 byte pattern; a zero-length write past the end is not compared (Cursor<Vec> and POSIX differ, the contract is silent)', ref='3/C04'),
  'C06': dict(engine='path', cat='model_checking', tech='exhaustive enumeration of all argument strings up to a length bound + BFS over path values against a lexical-resolution reference',
    text='Every string over {/ . a b e-acute} up to length L joined onto 6 bases for VfsPath and AsyncVfsPath, associativity for all pairs of short strings, BFS over path values with join/parent/root; equality matrix over 17 ways of producing three paths on two filesystem instances; result, canonical form, parent/filename/extension/is_root/equality compared with a reference resolver.',
@@ -51,23 +51,23 @@ CHECKS.update({
    text='Every script of d steps over 18 reader steps (reads of 0/1/2/5 bytes, read_to_end, read_exact, seeks from Start/Current/End before the start, inside, at and past the end) on files of 0, 1 and 4 bytes from Mem, Phys, Alt, Overlay (upper, lower-only, and middle layer shadowing a bottom copy) and Embedded, and every script over 15 writer steps (write, write_all, write!, seeks, flush) on create and append handles, compared call by call (return values, bytes, positions, published bytes) with std::io::Cursor.',
    note='d = 4 (quick) / 5 (thorough, memory based); seeking on append handles compared on memory based stacks only', ref='3/C14'),
  'C15': dict(engine='async', cat='model_checking', tech='product explicit-state BFS sync vs async + exhaustive enumeration of poll schedules (<=2 injected Pendings) with an own executor',
-   text='Sync and async stacks of the same configuration are explored in lock-step (outcome classes, error kinds, observable trees); async read handles run all read/seek scripts against Cursor; for walks and the composites built on them every plan with 1 and 2 injected Pendings at the await points the wrapper owns (every AsyncFileSystem method entry, every read_dir stream item, at every level of the stack) must give the plan-free result, which must equal the sync twin; reader+writer scripts with removals end in the same tree in both worlds (memory based stacks); symlinks of four kinds x 13 calls x 2 targets give the same outcome classes on PhysicalFS and AsyncPhysicalFS.',
+   text='Sync and async stacks of the same configuration are explored in lock-step (outcome classes, error kinds, observable trees); async read handles run all read/seek scripts against Cursor; for walks and the composites built on them every plan with 1 and 2 injected Pendings at the await points the wrapper owns (every AsyncFileSystem method entry, every read_dir stream item, at every level of the stack) must give the plan-free result, which must equal the sync twin; reader+writer scripts with removals end in the same tree in both worlds (memory based stacks); an async file of 300 001 bytes is read with read_to_end and buffers of 65 537..400 000 bytes and texts with 2-/3-/4-byte characters straddling the 8 KiB and 16 KiB marks with read_to_string; symlinks of four kinds x 13 calls x 2 targets give the same outcome classes on PhysicalFS and AsyncPhysicalFS.',
    note='AsyncPhysicalFS in lock-step only; <=2 (thorough: 3 on the largest trees) injected Pendings; alphabet bound', ref='3/C15'),
  'C16': dict(engine='sched', cat='model_checking', tech='stateless exhaustive schedule enumeration (cooperative scheduler at lock-acquisition yield points, visited-state pruning) + brute-force linearizability check against sequential runs of the real code',
-   text='For every small program (2 threads x 1 call/session over the full alphabet on overlapping paths x 4 initial states, all (2,1)-call programs of mutators on two paths, and the same at the FileSystem trait level; thorough: 3 threads, 2 calls per thread) all interleavings at MemoryFS lock granularity are executed on the real code; per-thread results and final raw state of every schedule must equal those of some program-order-respecting sequential execution on a fresh MemoryFS; no panic, no deadlock (watchdog), and the final tree of every schedule is well-formed.',
+   text='For every small program (2 threads x 1 call/session over the full alphabet on overlapping paths x 4 initial states, all (2,1)-call programs of mutators on two paths, a write session (incl. one of 50 000 bytes and one that publishes twice) against a thread that first reads or stats the file and then changes it, and the same at the FileSystem trait level; thorough: 3 threads, 2 calls per thread) all interleavings at MemoryFS lock granularity are executed on the real code; per-thread results and final raw state of every schedule must equal those of some program-order-respecting sequential execution on a fresh MemoryFS; no panic, no deadlock (watchdog), and the final tree of every schedule is well-formed.',
    note='scheduling points = the verif-hooks yield points before each lock acquisition (exact for a single-lock safe-Rust structure); no preemption bound in quick; error kinds are compared in the FileSystem-trait-level program class (one critical section per call), not at the path level (a VfsPath call is several filesystem calls)', ref='3/C16'),
  'C17': dict(engine='sched', cat='model_checking', tech='stateless exhaustive schedule enumeration of k concurrent create_dir_all calls on all path multisets',
    text='k = 2,3 (thorough 4) threads each calling create_dir_all on every multiset of 7 paths sharing prefixes of every length, on MemoryFS, AltrootFS, OverlayFS (empty and with the shared prefix only in the lower layer), three-level stackings (Alt(Ov), Ov[Alt,Mem], Alt(Alt)) at lock granularity and on PhysicalFS at create_dir call granularity: also with the shared prefix removed through the filesystem before the race starts (overlay deletion markers in place): every call returns Ok and every prefix is a directory under every interleaving.',
    note='PhysicalFS: mkdir(2) atomic, nobody else touches the scratch directory; classes with a preemption bound are labelled in the evidence', ref='3/C17'),
  'C18': dict(engine='embed', cat='model_checking', tech='exhaustive enumeration of every public operation on every path of a derived finite path set of an immutable (single-state) filesystem, PhysicalFS on the same folder as oracle',
-   text='EmbeddedFS is immutable, so one state per fixture and depth-1 closure is all histories: every observer, read_to_string, walk_dir, reader scripts and every mutator (incl. transfers into / out of / inside it) on every path of the path set (files, implied directories, root, absent siblings, prefixes/extensions of names, paths below files) of two fixtures, compared with PhysicalFS on the same folder; mutators are refused (not-supported when their ordinary preconditions hold) and change nothing.',
+   text='EmbeddedFS is immutable, so one state per fixture and depth-1 closure is all histories: every observer, read_to_string, walk_dir, reader scripts and every mutator (incl. transfers into / out of / inside it) on every path of the path set (files, implied directories, root, absent siblings, prefixes/extensions of names, paths below files, and variants of every name with the separator replaced by a backslash, a space or a colon) of two fixtures, compared with PhysicalFS on the same folder; mutators are refused (not-supported when their ordinary preconditions hold) and change nothing.',
    note='two fixture folders; release build (rust-embed embeds at compile time)', ref='3/C18'),
  'C19': dict(engine='time', cat='model_checking', tech='exhaustive enumeration of boundary time values x setter orders x entry kinds x configurations x follow-up operations against a field-wise model',
-   text='8 boundary time values (epoch, sub-second, pre-epoch, far future) x every single setter and all 6 orders of the three setters x file/directory x Mem, Phys, Alt, Overlay over memory and over physical layers (entry in the upper layer, lower-only, and in upper and lower layers at once) x follow-up {nothing, read, append, overwrite, copy, setters while an append handle is open}: an accepted setter sets exactly its field and nothing else, a refused one changes nothing, append on MemoryFS preserves created, adapters report the timestamps of the serving entry.',
+   text='8 boundary time values (epoch, sub-second, pre-epoch, far future) x every single setter and all 6 orders of the three setters x file/directory/symlink-to-file x Mem, Phys, Alt, Overlay over memory and over physical layers (entry in the upper layer, lower-only, and in upper and lower layers at once) x follow-up {nothing, read, append, overwrite, copy, setters while an append handle is open, an append handle written before the setters and dropped after them, a read before the setters}: an accepted setter sets exactly its field and nothing else, a refused one changes nothing, append on MemoryFS preserves created, adapters report the timestamps of the serving entry.',
    note='PhysicalFS on tmpfs; metadata read immediately before/after each setter', ref='3/C19'),
  'C20': dict(engine='fault', cat='fault_enumeration', tech='for every reachable state x every call: fail each single underlying call position k = 1..n (thorough: all pairs) via a fault-injecting FileSystem wrapper',
    text='For every state of a BFS over the fault-free transitions and every call incl. observers, walk_dir and read_to_string: one fault-free run counts the n calls made into the wrapped filesystems of the stack (trait methods and every read/write/seek/flush on returned handles), then the call is re-run from the same state once per position k with exactly that call failing; the result must be Err (or an Err item), or Ok with the complete fault-free effect and answer; never a panic, never a mutating call on a lower layer.',
-   note='faults at the public FileSystem trait boundary of every filesystem of the stack and in every read/write/seek/flush on the handles they return; <=2 simultaneous faults', ref='3/C20'),
+   note='faults at the public FileSystem trait boundary of every filesystem of the stack and in every read/write/seek/flush on the handles they return; <=2 simultaneous faults; overlays of up to 4 layers', ref='3/C20'),
 })
 
 def check(i, c):
